@@ -22,7 +22,7 @@ PROP = {
         "retention period = 30 s as the statement's quantifier says; it is not read from the code. At exactly request+30 s, and later, the pinned version, the current one or any version created in between is accepted (statement silent); nothing else, in particular never the empty fallback",
         "a reload counts as having happened iff the accessor call reported success; revert restores the content of the last policies file that was read successfully (with / without its diagnosis plugins)",
         "versions are compared by content (marker, presence of diagnosis plugins), not by pointer: two versions with identical content are interchangeable for the statement",
-        "the look-up key is re-stated from routing/messages_handler.go and runner/diagnosis_worker.go (config.TxnID(args.ID) on request, response and diagnosis task); the unexported handlers themselves are not driven (building a HandlingDataManager dials the syslog exporter socket)",
+        "the look-up key is re-stated from routing/messages_handler.go and runner/diagnosis_worker.go (config.TxnID(args.ID) on request, response and diagnosis task); the accessor-level units use that re-statement; the unit TestMessageHandlersE2E drives the unexported handlers themselves through routing.Handler of a policy-mode HandlingDataManager (request and response messages of retried attempts whose id differs from the sequence id, reloads in between), the diagnosis worker's look-up stays re-stated",
         "burst interleavings are whatever the Go scheduler produces; unsynchronised access that only a race detector sees belongs to C18",
     ],
     "units": [
